@@ -13,6 +13,11 @@ the public operations, read off the ast of /repo/jsonargparse/_core.py.
     (`self.dump/validate/merge_config(...)`), of a logger call or a bare truth test, until (b) the name is
     rebound to such a copy.  get_defaults: the value stored under `cfg[action.dest]` is
     `recreate_branches(action.default)`.
+(3) sub-defaults: `ActionTypeHint.add_sub_defaults` (run by every parse and by get_defaults) must write the
+    spec derived from a `lazy_instance` signature default into `init_args` of every class spec of a
+    configuration — a spec that is the value itself, an element of a list, a value of a dict — otherwise
+    instantiation falls back to the ONE live default object of the signature.  Probed on the live code with a
+    probe class in a temp module: one row (position, expanded) per position.
 """
 from __future__ import annotations
 
@@ -238,14 +243,85 @@ def copy_sites(problems):
     return out
 
 
+PROBE_MOD = "c08_probe_classes"
+PROBE_SRC = '''
+from jsonargparse import lazy_instance
+
+
+class Inner:
+    def __init__(self, size: int = 3):
+        self.size = size
+
+
+class Outer:
+    def __init__(self, inner: Inner = lazy_instance(Inner, size=7), scale: float = 1.0):
+        self.inner = inner
+        self.scale = scale
+'''
+
+
+PROBE_SCRIPT = '''
+import importlib, inspect, json, sys
+from typing import Dict, List
+from jsonargparse import ArgumentParser
+mod = importlib.import_module("%(mod)s")
+spec = {"class_path": "%(mod)s.Outer"}
+p = ArgumentParser(exit_on_error=False)
+p.add_argument("--one", type=mod.Outer)
+p.add_argument("--many", type=List[mod.Outer])
+p.add_argument("--pool", type=Dict[str, mod.Outer])
+cfg = p.parse_object({"one": dict(spec), "many": [dict(spec)], "pool": {"a": dict(spec)}})
+def expanded(v):
+    init = v.get("init_args") if hasattr(v, "get") else None
+    inner = init.get("inner") if init is not None and hasattr(init, "get") else None
+    return inner is not None and "class_path" in inner
+rows = [["spec", expanded(cfg.one)], ["list", expanded(cfg.many[0])], ["dict", expanded(cfg.pool["a"])]]
+live = inspect.signature(mod.Outer).parameters["inner"].default
+inst = p.instantiate_classes(cfg)
+rows.append(["instantiated-fresh", all(o.inner is not live for o in (inst.one, inst.many[0], inst.pool["a"]))])
+print("ROWS " + json.dumps(rows))
+'''
+
+
+def probe_sub_defaults(problems):
+    """[(position, the lazy_instance signature default is expanded into init_args there)].
+    Run in a child process: the probe parses and instantiates, which must not leave traces (e.g. the
+    `__slotnames__` cache copy.deepcopy puts on the Namespace class) in the process of the other extractors."""
+    import json
+    import shutil
+    import subprocess
+    import tempfile
+
+    d = tempfile.mkdtemp(prefix="c08probe_")
+    try:
+        with open(os.path.join(d, PROBE_MOD + ".py"), "w") as f:
+            f.write(PROBE_SRC)
+        with open(os.path.join(d, "run_probe.py"), "w") as f:
+            f.write(PROBE_SCRIPT % {"mod": PROBE_MOD})
+        env = dict(os.environ, PYTHONPATH=REPO + os.pathsep + d)
+        pr = subprocess.run(["/venv/bin/python", os.path.join(d, "run_probe.py")], cwd=d, env=env, stdout=subprocess.PIPE, stderr=subprocess.STDOUT, text=True, timeout=120)
+        for line in pr.stdout.split("\n"):
+            if line.startswith("ROWS "):
+                return [(k, bool(v)) for k, v in json.loads(line[5:])]
+        problems.append("HeapSites: sub-defaults probe failed: %s" % pr.stdout[-400:])
+    except Exception as ex:  # noqa: BLE001
+        problems.append("HeapSites: sub-defaults probe failed: %r" % (ex,))
+    finally:
+        shutil.rmtree(d, ignore_errors=True)
+    return [("spec", False), ("list", False), ("dict", False), ("instantiated-fresh", False)]
+
+
 def generate(problems):
     kinds = probe_kinds(problems)
     sites = copy_sites(problems)
+    subs = probe_sub_defaults(problems)
     b = lambda x: "true" if x else "false"  # noqa: E731
     body = "namespace Jap.Gen.HeapSites\n"
     body += "/-- (kind, recreate_branches gives a fresh object and recurses, the adapter writes elements back into the object it was given) -/\n"
     body += "def kindTable : List (String × Bool × Bool) := [%s]\n" % ", ".join("(%s, %s, %s)" % (lean_str(k), b(r), b(i)) for k, r, i in kinds)
     body += "/-- (operation.parameter, the argument is copied before anything else is done with it) -/\n"
     body += "def copySites : List (String × Bool) := [%s]\n" % ", ".join("(%s, %s)" % (lean_str(k), b(v)) for k, v in sites)
+    body += "/-- (position of a class spec, add_sub_defaults expands the lazy_instance signature default into init_args there) -/\n"
+    body += "def subDefaults : List (String × Bool) := [%s]\n" % ", ".join("(%s, %s)" % (lean_str(k), b(v)) for k, v in subs)
     body += "end Jap.Gen.HeapSites\n"
     write_if_changed("HeapSites.lean", body)
